@@ -35,6 +35,8 @@ THEOREMS['C02'] = ['FB.C02_rolledBack_frame', 'FB.C02_rolledBack_files', 'FB.C02
 THEOREMS['C14'] = ['FB.C14_fault_surfaces', 'FB.C02_spec_build_raises', 'FB.C02_rolledBack_files']
 THEOREMS['C03'] = ['FB.C03_impl_build', 'FB.C03_impl_buildGo', 'FB.C03_impl_run_frame', 'FB.replayOp_frame', 'FB.C03_run_frame',
                    'FB.C12_preClean_frame', 'FB.C02_rolledBack_files', 'FB.C12_impl_clean_is_preClean']
+THEOREMS['C16'] = ['FB.Codec.decode_encode', 'FB.Codec.decodeOps_encodeOps', 'FB.Codec.read_write', 'FB.Codec.replayOp_strip',
+                   'FB.Codec.replayOps_strip', 'FB.Codec.isEqual_textRT', 'FB.Codec.textRT_of_wf']
 THEOREMS['C10'] = ['FB.C10_success', 'FB.C10_failure', 'FB.C10_setup']
 THEOREMS['C12'] = ['FB.C12_preClean_frame', 'FB.C12_clean_noop_without_cache', 'FB.C12_clean_idempotent',
                    'FB.C12_impl_clean_is_preClean']
@@ -479,8 +481,32 @@ def c16_cases(tier, ds):
 
 
 def check_C16(tier):
-    return run_hist_prop('C16', tier, 16, 300, 15000, families=[], per_family=(0, 0), extra_cases=c16_cases, prof=RICH_RETS,
-                         p_fail=0.1)
+    rep = core.Report('C16', tier)
+    gate = core.proof_gate(THEOREMS['C16'], tier)
+    ds = measure()
+    # the codec on its own: /repo's decode/encode against FB.Codec on random operation documents
+    from . import codeccheck
+    probs = codeccheck.run(tier, rep)
+    oracle = [p for p in probs if p['cat'] == 'oracle']
+    tie = [p for p in probs if p['cat'] == 'tie']
+    for p in oracle[:3]:
+        rep.violation('codec', {'property': 'C16', 'kind': 'failing-input', 'what': p['what'], 'document': p['doc'], 'got': p.get('real')},
+                      note='%s: %s' % (p['what'], json.dumps(p['doc'])[:160]))
+    if tie and not oracle:
+        p = tie[0]
+        rep.violation('codec_tie', {'property': 'C16', 'kind': 'correspondence-broken',
+                                    'no_longer_checks': 'FB.Codec (decode_encode, read_write, replayOp_strip) describes cache.py: ' + p['what'],
+                                    'document': p['doc'], 'real': p.get('real'), 'model': p.get('model')},
+                      note='codec model/code disagree: %s' % p['what'], no_input=True)
+    rep.count('correspondence_disagreements_codec', len(tie))
+    # the codec inside whole builds
+    cases = corpus_cases(ds) + c16_cases(tier, ds)
+    cases += random_cases(tier, 300, 15000, 16, prof=RICH_RETS, dirsize=ds, p_fail=0.1)
+    for i, c in enumerate(cases):
+        if not str(c.get('seed', '')).startswith('corpus:') and i % 4 == 0:
+            c['spell'] = core.seed() * 7919 + i
+    explore('C16', tier, rep, cases)
+    return finish('C16', rep, gate)
 
 
 def check_C18(tier):
